@@ -180,13 +180,13 @@ class Gen:
         r = self.r
         pool = ["time", "measurement"] + [f"tags.{k}" for k in TAG_KEYS[:3] + ["zz"]] + [f"fields.{k}" for k in FIELD_KEYS + ["zz"]]
         c = r.random()
-        if c < 0.07:
+        if c < 0.12:
             # a key that is not "time" / "measurement" / "tags.<key>" / "fields.<key>" with a non-empty <key>: ValueError
-            bad = r.choice(["tags.", "fields.", "fields", "tags", "tag.a", "field.a", "Time", "", "measurement ", " time", "tags_a", "TAGS.a", "fields,a"])
+            bad = r.choice(["tags.", "fields."]) if r.random() < 0.5 else r.choice(["fields", "tags", "tag.a", "field.a", "Time", "", "measurement ", " time", "tags_a", "TAGS.a", "fields,a"])
             ks = r.sample(pool, r.choice([0, 1, 2]))
             ks.insert(r.randrange(len(ks) + 1), bad)
             return ks
-        if c < 0.14:
+        if c < 0.19:
             # unusual but valid spellings: the key is whatever follows the first "tags." / "fields."
             odd = r.choice(["tags..", "tags.a.b", "fields. a", "tags.tags.a", "fields.fields.a", "tags. ", "fields.time", "tags.measurement"])
             return r.sample(pool, r.choice([0, 1])) + [odd]
